@@ -257,6 +257,19 @@ def band_rules(run, db):
     pit = install_pi(Interp(db, pdom))
     pit._reset_run([])
     fr = Frame(f, f.module, {'r': pdom.sym('r'), 'flow': pdom.sym('flow'), 'fhigh': pdom.sym('fhigh')})
+    # masks held in locals (`outside = (r < flow) | (r > fhigh)`) are followed: plain assignments ahead of the stores are evaluated in
+    # PRED when they can be
+    first_store = min(n.lineno for n in stores)
+    for st_ in sorted([n for n in walk_no_nested(f.node) if isinstance(n, ast.Assign) and len(n.targets) == 1 and isinstance(n.targets[0], ast.Name) and n.lineno < first_store],
+                      key=lambda n: n.lineno):
+        if st_.targets[0].id in ('r', 'flow', 'fhigh'):
+            continue
+        try:
+            v_ = pit.ev(st_.value, fr)
+        except Exception:
+            continue
+        if isinstance(v_, Pred) or pdom.rat(v_) is not None:
+            fr.env[st_.targets[0].id] = v_
     zeroed = None
     okp = bool(stores) and len({n.targets[0].value.id for n in stores}) == 1
     for n in stores:
